@@ -2,7 +2,7 @@
    interleaved, sequences unsorted).  Provided no trip receives two rows with the same stop_sequence, every permutation of the
    rows yields the same trips, stop times included. *)
 From Coq Require Import Permutation Sorted.
-From GV Require Import Base.Prelude Base.Dec Base.Sort Model.Csv Model.Realtime Model.Static
+From GV Require Import Base.Prelude Base.Dec Base.Sort Model.Csv Model.Realtime Model.Static Model.Purity
   Proofs.StaticProofs Proofs.PurityProofs Proofs.InertProofs.
 
 (* update at an index, structurally *)
@@ -221,3 +221,113 @@ Proof.
     destruct t1, t2; cbn in *. inversion Ef; subst. reflexivity.
 Qed.
 End WithOracles2.
+
+(* ================= shapes.txt: rows in any order ================= *)
+Lemma perm_filter {A} (p : A -> bool) l l' : Permutation l l' -> Permutation (filter p l) (filter p l').
+Proof.
+  induction 1 as [|x l l' P IH|x y l|l1 l2 l3 P1 IH1 P2 IH2]; cbn.
+  - constructor.
+  - destruct (p x); [now constructor|exact IH].
+  - destruct (p x), (p y); try reflexivity. apply perm_swap.
+  - eapply Permutation_trans; eassumption.
+Qed.
+Section Shapes.
+Variable pf : string -> option Z.
+(* what a row contributes: its shape id and the point *)
+Definition s_contrib (v : rowview) : option (string * shape_row) :=
+  let '(sid, m1) := required v "shape_id" in
+  let '(lat, m2) := required v "shape_pt_lat" in
+  let '(lon, m3) := required v "shape_pt_lon" in
+  let '(sq, m4) := required v "shape_pt_sequence" in
+  if m1 || m2 || m3 || m4 then None else
+  match parse_float64 pf lat, parse_float64 pf lon, parse_int32 sq with
+  | Some la', Some lo, Some q => Some (sid, {| sr_lat := la'; sr_lon := lo; sr_seq := q; sr_dist := parse_float64 pf (optional v "shape_dist_traveled") |})
+  | _, _, _ => None
+  end.
+Definition s_add (m : list (string * list shape_row)) (c : string * shape_row) : list (string * list shape_row) :=
+  aset (fst c) (odflt [] (alookup (fst c) m) ++ [snd c]) m.
+Lemma shapes_row_is_contrib m v : shapes_row pf m v = match s_contrib v with Some c => s_add m c | None => m end.
+Proof.
+  unfold shapes_row, s_contrib, s_add. destruct (required v "shape_id") as [sid m1]. destruct (required v "shape_pt_lat") as [lat m2].
+  destruct (required v "shape_pt_lon") as [lon m3]. destruct (required v "shape_pt_sequence") as [sq m4]. destruct (_ || _); [reflexivity|].
+  destruct (parse_float64 pf lat); [|reflexivity]. destruct (parse_float64 pf lon); [|reflexivity]. destruct (parse_int32 sq); reflexivity.
+Qed.
+Lemma fold_shapes_contribs hdr rows : forall m,
+  fold_left (fun m cells => shapes_row pf m (view hdr cells)) rows m = fold_left s_add (filter_map (fun cells => s_contrib (view hdr cells)) rows) m.
+Proof.
+  induction rows as [|r rows IH]; intros m; [reflexivity|]. cbn [fold_left]. rewrite shapes_row_is_contrib. unfold filter_map. cbn [flat_map].
+  destruct (s_contrib (view hdr r)); cbn [app fold_left]; apply IH.
+Qed.
+(* the rows of shape sid, in file order *)
+Definition rows_of (sid : string) (cs : list (string * shape_row)) : list shape_row :=
+  map snd (filter (fun c => String.eqb (fst c) sid) cs).
+Lemma s_add_lookup m c sid : alookup sid (s_add m c) = if String.eqb (fst c) sid then Some (odflt [] (alookup sid m) ++ [snd c]) else alookup sid m.
+Proof. unfold s_add. rewrite alookup_aset_eq. destruct (String.eqb_spec (fst c) sid) as [->|]; reflexivity. Qed.
+Lemma fold_s_add_lookup sid : forall cs m,
+  odflt [] (alookup sid (fold_left s_add cs m)) = odflt [] (alookup sid m) ++ rows_of sid cs.
+Proof.
+  induction cs as [|c cs IH]; intros m; cbn [fold_left]; [unfold rows_of; cbn; now rewrite app_nil_r|].
+  rewrite IH, s_add_lookup. unfold rows_of. cbn [filter]. destruct (String.eqb (fst c) sid); cbn [map odflt]; [now rewrite <- app_assoc|reflexivity].
+Qed.
+Lemma fold_s_add_keys : forall cs m sid, In sid (map fst (fold_left s_add cs m)) <-> In sid (map fst m) \/ In sid (map fst cs).
+Proof.
+  induction cs as [|c cs IH]; intros m sid; cbn [fold_left map]; [cbn; tauto|]. rewrite IH. unfold s_add. rewrite aset_keys_in. cbn. intuition.
+Qed.
+Lemma fold_s_add_nodup : forall cs m, NoDup (map fst m) -> NoDup (map fst (fold_left s_add cs m)).
+Proof. induction cs as [|c cs IH]; intros m H; cbn [fold_left]; [exact H|]. apply IH. unfold s_add. now apply aset_nodup. Qed.
+Lemma alookup_in {A} k (v : A) m : NoDup (map fst m) -> (In (k, v) m <-> alookup k m = Some v).
+Proof.
+  induction m as [|[k' v'] m IH]; cbn; intros H; [split; [tauto|discriminate]|]. inversion H as [|? ? Hn Hnd]; subst.
+  destruct (String.eqb_spec k k') as [->|N].
+  - split; [intros [E|Hin]; [now inversion E|exfalso; apply Hn; change k' with (fst (k', v)); now apply in_map]|intros E; inversion E; now left].
+  - rewrite <- (IH Hnd). split; [intros [E|Hin]; [inversion E; congruence|exact Hin]|tauto].
+Qed.
+
+Definition seq_lt_s (a b : shape_row) : bool := sr_seq a <? sr_seq b.
+Lemma shape_rows_order l l' : Permutation l l' -> NoDup (map sr_seq l) -> isort shape_row seq_lt_s l = isort shape_row seq_lt_s l'.
+Proof.
+  intros P H. apply (isort_by_key_perm Base.Lex.sto_Z sr_seq); auto.
+Qed.
+
+Theorem shapes_rows_any_order hdr rows rows' :
+  Permutation rows rows' ->
+  (forall sid, NoDup (map sr_seq (rows_of sid (filter_map (fun cells => s_contrib (view hdr cells)) rows)))) ->
+  parse_shapes pf hdr rows = parse_shapes pf hdr rows'.
+Proof.
+  intros P Hd. unfold parse_shapes. destruct (has_columns _ _); [|reflexivity]. rewrite !fold_shapes_contribs.
+  set (cs := filter_map _ rows) in *. set (cs' := filter_map _ rows').
+  assert (Pc : Permutation cs cs') by (unfold cs, cs', filter_map; apply Permutation_flat_map, P).
+  set (m := fold_left s_add cs []). set (m' := fold_left s_add cs' []).
+  assert (Nm : NoDup (map fst m)) by (apply fold_s_add_nodup; constructor).
+  assert (Nm' : NoDup (map fst m')) by (apply fold_s_add_nodup; constructor).
+  (* the two maps hold, per shape id, permutations of the same rows; hence equal shapes *)
+  assert (Hshape : forall sid l l', alookup sid m = Some l -> alookup sid m' = Some l' ->
+            shape_of (sid, l) = shape_of (sid, l')).
+  { intros sid l l' E E'. pose proof (fold_s_add_lookup sid cs []) as A. pose proof (fold_s_add_lookup sid cs' []) as A'.
+    fold m in A. fold m' in A'. rewrite E in A. rewrite E' in A'. cbn in A, A'. subst l l'. unfold shape_of. cbn [fst snd]. f_equal. f_equal.
+    apply shape_rows_order; [|apply Hd]. unfold rows_of. apply Permutation_map.
+    apply perm_filter, Pc. }
+  assert (Hkeys : forall sid, In sid (map fst m) <-> In sid (map fst m')).
+  { intros sid. unfold m, m'. rewrite !fold_s_add_keys. cbn. split; intros [[]|H]; right;
+      [eapply Permutation_in; [apply Permutation_map; exact Pc|exact H]|eapply Permutation_in; [apply Permutation_map, Permutation_sym; exact Pc|exact H]]. }
+  (* the two shape lists have pairwise distinct ids and the same elements *)
+  assert (Hin : forall x, In x (map shape_of m) -> In x (map shape_of m')).
+  { intros x Hx. apply in_map_iff in Hx as [[sid l] [<- Hl]]. apply (alookup_in _ _ _ Nm) in Hl.
+    assert (Hk : In sid (map fst m')) by (apply Hkeys; apply in_map_iff; exists (sid, l); split; [reflexivity|now apply (alookup_in _ _ _ Nm)]).
+    apply in_map_iff in Hk as [[sid' l'] [E Hl']]. cbn in E. subst sid'. apply in_map_iff. exists (sid, l'). split; [|exact Hl'].
+    symmetry. apply Hshape; [exact Hl|now apply (alookup_in _ _ _ Nm')]. }
+  assert (Hin' : forall x, In x (map shape_of m') -> In x (map shape_of m)).
+  { intros x Hx. apply in_map_iff in Hx as [[sid l'] [<- Hl']]. apply (alookup_in _ _ _ Nm') in Hl'.
+    assert (Hk : In sid (map fst m)) by (apply Hkeys; apply in_map_iff; exists (sid, l'); split; [reflexivity|now apply (alookup_in _ _ _ Nm')]).
+    apply in_map_iff in Hk as [[sid' l] [E Hl]]. cbn in E. subst sid'. apply in_map_iff. exists (sid, l). split; [|exact Hl].
+    apply Hshape; [now apply (alookup_in _ _ _ Nm)|exact Hl']. }
+  assert (Kid : forall mm, map sh_id (map shape_of mm) = map fst mm) by (intros mm; rewrite map_map; reflexivity).
+  apply (isort_by_key_perm Base.Lex.sto_string sh_id).
+  - apply NoDup_Permutation.
+    + apply (NoDup_map_inv sh_id). rewrite Kid. exact Nm.
+    + apply (NoDup_map_inv sh_id). rewrite Kid. exact Nm'.
+    + intros x. split; [apply Hin|apply Hin'].
+  - rewrite Kid. exact Nm.
+  - reflexivity.
+Qed.
+End Shapes.
